@@ -136,7 +136,12 @@ impl ScriptCase {
         let res = catch_unwind(AssertUnwindSafe(|| runner.run_multi(records)));
         let result = match res {
             Ok(Ok(())) => "ok".to_string(),
-            Ok(Err(e)) => format!("failed {} {}", e.location().line(), terr_kind(&e.kind())),
+            Ok(Err(e)) => format!(
+                "failed {} {} {}",
+                e.location().line(),
+                terr_kind(&e.kind()),
+                hx(&terr_detail(&e.kind()))
+            ),
             Err(_) => "crashed".to_string(),
         };
         let _ = catch_unwind(AssertUnwindSafe(|| runner.shutdown()));
